@@ -101,5 +101,84 @@ def geoInv0 (g : Geo) : Bool :=
 /-- the full invariant of C10 -/
 def geoInv (g : Geo) : Bool := g.geoInv0 && g.layersOK && g.namesFresh
 
+/-! ### sensible requests and edit histories -/
+
+/-- `add_connection(connection([col0, col1]))` is a sensible edit: two different columns of the geometry, not yet
+    joined, sharing a side which `connection_nodes` finds -/
+def addConnPreB (g : Geo) (c0 c1 : Nat) : Bool :=
+  g.columnlist.contains c0 && g.columnlist.contains c1 && c0 != c1 && !g.joined c0 c1 &&
+    (match g.connectionNodes c0 c1 with
+     | some (a, b) => a != b && isSide (g.col c0).nodes a b && isSide (g.col c1).nodes a b
+     | none => false)
+
+end Geo
+
+/-- the primitive edits of a geometry, arguments as a caller gives them (objects by name) -/
+inductive Edit where
+  | addNode (name : Name) (pos : Pt)
+  | deleteNode (name : Name)
+  | addColumn (name : Name) (nodes : List Name) (centre : Option Pt) (surface : Option Rat) (numLayers : Int)
+  | deleteColumn (name : Name)
+  | addConnection (col0 col1 : Name)
+  | deleteConnection (col0 col1 : Name)
+  | addLayer (l : Layer)
+  | deleteLayer (name : Name)
+  | addWell (w : Well)
+  | deleteWell (name : Name)
+  | translate (dx dy dz : Rat) (wells : Bool)
+  | setupNames
+
+namespace Geo
+
+def lookup (d : Dict Name) (n : Name) : Except Exc Nat :=
+  match d.get? n with
+  | some i => .ok i
+  | none => .error .keyError
+
+/-- one edit -/
+def edit (g : Geo) : Edit → Except Exc Geo
+  | .addNode name pos => .ok (g.addNode name pos)
+  | .deleteNode name => g.deleteNode name
+  | .addColumn name nodes centre surface nl =>
+    match nodes.mapM (lookup g.nodeD) with
+    | .ok ids => g.addColumn name ids centre surface nl
+    | .error e => .error e
+  | .deleteColumn name => g.deleteColumn name
+  | .addConnection a b =>
+    match g.columnD.get? a, g.columnD.get? b with
+    | some c0, some c1 => .ok (g.addConnection c0 c1)
+    | _, _ => .error .keyError
+  | .deleteConnection a b => g.deleteConnection (a, b)
+  | .addLayer l => .ok (g.addLayer l)
+  | .deleteLayer name => g.deleteLayer name
+  | .addWell w => .ok (g.addWell w)
+  | .deleteWell name => g.deleteWell name
+  | .translate dx dy dz w => .ok (g.translate dx dy dz w)
+  | .setupNames => g.setupNames
+
+/-- when an edit is a sensible request on the geometry `g`: a node is only deleted when no column uses it; a new
+    column has a new name, nodes of the geometry and a non-degenerate polygon; a new connection joins two
+    unconnected columns that share a side (or repeats an existing key, which `add_connection` ignores) -/
+def editOK (g : Geo) : Edit → Bool
+  | .deleteNode name =>
+    match g.nodeD.get? name with
+    | some i => g.columnlist.all fun c => !(g.col c).nodes.contains i
+    | none => true
+  | .addColumn name nodes _ _ _ =>
+    !g.columnD.contains name &&
+      (match nodes.mapM (lookup g.nodeD) with
+       | .ok ids => ids.all (fun n => g.nodelist.contains n) && decide (polygonArea (g.polygon ids) ≠ 0)
+       | .error _ => true)
+  | .addConnection a b =>
+    match g.columnD.get? a, g.columnD.get? b with
+    | some c0, some c1 => g.addConnPreB c0 c1 || g.connD.contains ((g.col c0).name, (g.col c1).name)
+    | _, _ => true
+  | _ => true
+
+/-- a history of edits, each one sensible at the moment it is applied -/
+def run (g : Geo) : List Edit → Except Exc Geo
+  | [] => .ok g
+  | e :: es => if g.editOK e then (g.edit e) >>= fun g' => g'.run es else .error .generic
+
 end Geo
 end Model.Geo
